@@ -1,5 +1,5 @@
 (* Entry point of the extracted executable for C11. *)
-From CV Require Import Base.Bytes PP.Cond PP.Eval.
+From CV Require Import Base.Bytes PP.Cond PP.Eval PP.Macro.
 Local Open Scope N_scope.
 
 Definition nd (s : str) : N := match N_of_dec s with Some z => z | None => 0 end.
@@ -140,6 +140,57 @@ Fixpoint toks_eqb (a b : list tok) : bool :=
   | _, _ => false
   end.
 
+(* ---- macro expansion: items  S<sym> I<id> P<i> C<name> [ items ] ... )   ; a sequence ends at "]" or at the end *)
+Fixpoint parse_term (fuel : nat) (l : list str) : option (term * list str) :=
+  match fuel with
+  | O => None
+  | S f =>
+      match l with
+      | [] => Some (TEnd, [])
+      | [93] :: _ => Some (TEnd, l)                                   (* ] not consumed *)
+      | (83 :: s) :: r => option_map (fun p => (TSym s (fst p), snd p)) (parse_term f r)
+      | (73 :: n) :: r => option_map (fun p => (TId n (fst p), snd p)) (parse_term f r)
+      | (80 :: i) :: r => option_map (fun p => (TPar (N.to_nat (nd i)) (fst p), snd p)) (parse_term f r)
+      | (67 :: n) :: r =>
+          match parse_args f r with
+          | Some (a, r') => option_map (fun p => (TCall n a (fst p), snd p)) (parse_term f r')
+          | None => None
+          end
+      | _ => None
+      end
+  end
+with parse_args (fuel : nat) (l : list str) : option (args * list str) :=
+  match fuel with
+  | O => None
+  | S f =>
+      match l with
+      | [41] :: r => Some (ANil, r)                                   (* ) *)
+      | [91] :: r =>                                                  (* [ *)
+          match parse_term f r with
+          | Some (t, [93] :: r') => option_map (fun p => (ACons t (fst p), snd p)) (parse_args f r')
+          | _ => None
+          end
+      | _ => None
+      end
+  end.
+
+(* table: count, then per macro: name, O | F<np>, body items, "]" *)
+Fixpoint parse_table (k : nat) (l : list str) : option (table * list str) :=
+  match k with
+  | O => Some ([], l)
+  | S k' =>
+      match l with
+      | name :: kind :: r =>
+          match parse_term (S (length r)) r with
+          | Some (body, [93] :: r') =>
+              let d := match kind with 70 :: np => Fn (N.to_nat (nd np)) body | _ => Obj body end in
+              option_map (fun p => ((name, d) :: fst p, snd p)) (parse_table k' r')
+          | _ => None
+          end
+      | _ => None
+      end
+  end.
+
 Definition run (fields : list str) : list str :=
   match fields with
   | tag :: rest =>
@@ -184,6 +235,23 @@ Definition run (fields : list str) : list str :=
                 | CUndef => [[85]]
                 end
             | _, _ => BAD
+            end
+        | _ => BAD
+        end
+      else if str_eqb tag [109;120] (* "mx" nmacros table items *) then
+        match rest with
+        | k :: rest' =>
+            match parse_table (N.to_nat (nd k)) rest' with
+            | Some (tb, items) =>
+                match parse_term (S (length items)) items with
+                | Some (t, []) =>
+                    match exp tb (S (enough tb [] (tsize t))) [] [] t with
+                    | Some o => [79] :: o
+                    | None => [[70]]
+                    end
+                | _ => BAD
+                end
+            | None => BAD
             end
         | _ => BAD
         end
